@@ -27,14 +27,14 @@ structure OSetPost (T : Nat) (D : DigestFn (r + 1)) (cfg : MCfg) (m m' : OMap r)
     (old : Option Elem) (c c' : Ctx) : Prop where
   eff : SetEffect m.toList m'.toList k (storedValue cfg k v c) old
   inv : MapInv T D m'
-  ctx : CtxOk m' c'
+  ctx : CtxOk m c → CtxOk m' c'
   rootID : m'.rootID = m.rootID
   ty : m'.ty = m.ty
   seed : m'.seed = m.seed
   count : m'.count = if old.isNone then m.count + 1 else m.count
 
 theorem OMap.set_spec (hT : legalThreshold T = true) {m : OMap r} (hcfg : CfgOk cfg T m) (h : MapInv T D m)
-    {k : MKey} (hk : KeyOk T (r + 1) D k) {v : Elem} (hv : ValueOkM v) (c : Ctx) (hc : CtxOk m c) :
+    {k : MKey} (hk : KeyOk T (r + 1) D k) {v : Elem} (hv : ValueOkM v) (c : Ctx) :
     (TLimited cfg m.d m.root k → m.set cfg k v c = .error .collisionLimit) ∧
     (¬ TLimited cfg m.d m.root k → ∃ old m' c', m.set cfg k v c = .ok (old, m', c') ∧
       OSetPost T D cfg m m' k v old c c') := by
@@ -68,7 +68,8 @@ theorem OMap.set_spec (hT : legalThreshold T = true) {m : OMap r} (hcfg : CfgOk 
       · rw [hpost.count, htl, hlen]
         show (if old.isNone then cnt + 1 else cnt) = _
         cases old <;> simp [hcnt]
-      · refine ctxOk_of hc (by have := hp.ctr; have := hpost.ctr; omega) hrid ?_
+      · intro hc
+        refine ctxOk_of hc (by have := hp.ctr; have := hpost.ctr; omega) hrid ?_
         intro id hid
         rcases hpost.ids id hid with h' | h'
         · rcases hp.ids id h' with h'' | h''
